@@ -172,6 +172,15 @@ def run_vu(vu, prop, seed=0, open_findings=(), start=None, split_at=None):
             core.discharge(theory, ob, timeout_ms=vu.timeout_ms, seed=seed)
             if ob.verdict == "unknown":
                 _try_cvc5(theory, ob, vu.timeout_ms)
+            if ob.verdict == "unknown":
+                # both solvers ran out of their (wall-clock) time: on a machine whose cores are all busy a query that needs a
+                # few seconds alone can take several times as long - one more attempt with six times the budget and another
+                # seed before the obligation is given up as undecided (a verdict must not depend on the load)
+                spent = ob.seconds
+                core.discharge(theory, ob, timeout_ms=6 * vu.timeout_ms, seed=seed + 7919)
+                ob.seconds += spent
+                if ob.verdict != "unknown":
+                    ob.backend += " (second attempt, 6x budget)"
             entry = {"name": ob.name, "verdict": ob.verdict, "seconds": round(ob.seconds, 4),
                      "backend": ob.backend, "label": ob.label if ob.label != "proved" else vu.label,
                      "finding": ob.finding, "path": "".join("T" if d else "F" for d in ob.trace)}
